@@ -100,7 +100,7 @@ def xy_parsing(chk, P):
     cpe = P.cls("atsim.potentials.config._common", "ConfigParserException")
     I = F.make_interp(P)
     inst = InstV(cls)
-    site = cls.lookup("_parse_xy").site()
+    site = cls.site_of("_parse_xy")
 
     def run_(meth, d):
         try:
@@ -122,7 +122,7 @@ def xy_parsing(chk, P):
            key="C18.O2|xy|multiline")
     r2 = run_("_parse_x_y", {"x": "0 2 4", "y": "1 3 5"})
     ok = isinstance(r2, ListV) and isinstance(r, ListV) and r2.key() == r.key()
-    chk.ob("C18.O2", "x/y lists and xy pairs give the same (x, y)", ok, site=cls.lookup("_parse_x_y").site(), found=r2, expect=r,
+    chk.ob("C18.O2", "x/y lists and xy pairs give the same (x, y)", ok, site=cls.site_of("_parse_x_y"), found=r2, expect=r,
            key="C18.O2|same")
     for meth, d, what in (("_parse_xy", {"xy": "1 2 3"}, "odd number of xy items"), ("_parse_x_y", {"x": "1 2", "y": "1 2 3"}, "x and y of different length"),
                           ("_parse_xy", {"xy": "1 b"}, "non-numeric xy item"), ("_parse_x_y", {"x": "1 b", "y": "1 2"}, "non-numeric x item")):
@@ -186,7 +186,7 @@ def get_value(chk, P):
 def dat_reader(chk, P):
     mod = "atsim.potentials._tablereaders"
     cls = P.cls(mod, "DatReader")
-    site = cls.lookup("_populate").site()
+    site = cls.site_of("_populate")
     cases = [
         ("last row without final newline", "0 1\n1 22\n2 33", [(0, 1), (1, 22), (2, 33)]),
         ("last row with final newline", "0 1\n1 22\n2 33\n", [(0, 1), (1, 22), (2, 33)]),
